@@ -12,6 +12,51 @@ import pickle
 import sys
 
 
+class _RecordingEnviron:
+    """Stands in for os.environ and notes which variables are looked up from the library's own source files: the environment
+    variables a library reads are inputs of it, and they can only be varied once they are known."""
+
+    def __init__(self, real, src_root, seen):
+        self._real, self._src, self._seen = real, src_root, seen
+
+    def _note(self, key):
+        f = sys._getframe(2)
+        for _ in range(4):
+            if f is None:
+                break
+            if f.f_code.co_filename.startswith(self._src):
+                self._seen.add(str(key))
+                break
+            f = f.f_back
+
+    def __getitem__(self, key):
+        self._note(key)
+        return self._real[key]
+
+    def get(self, key, default=None):
+        self._note(key)
+        return self._real.get(key, default)
+
+    def __contains__(self, key):
+        self._note(key)
+        return key in self._real
+
+    def __getattr__(self, name):
+        return getattr(self._real, name)
+
+    def __setitem__(self, key, value):
+        self._real[key] = value
+
+    def __delitem__(self, key):
+        del self._real[key]
+
+    def __iter__(self):
+        return iter(self._real)
+
+    def __len__(self):
+        return len(self._real)
+
+
 def main():
     modname, funcname, payload_file, result_file = sys.argv[1:5]
     from mc import runner
@@ -21,8 +66,16 @@ def main():
     runner.setup_env(os.environ["VERIF_SCRATCH"])
     os.environ["HOME"] = home
     payload = json.load(open(payload_file))
+    record = os.environ.get("VERIF_RECORD_ENVIRON")
+    seen = set()
+    if record:
+        os.environ = _RecordingEnviron(os.environ, os.path.join(runner.repo_root(), "src") + os.sep, seen)
     mod = importlib.import_module(modname)
     acc = getattr(mod, funcname)(payload)
+    if record:
+        os.environ = os.environ._real
+        with open(record, "w") as f:
+            json.dump(sorted(seen), f)
     with open(result_file, "wb") as f:
         pickle.dump(acc, f)
 
